@@ -234,3 +234,31 @@ Fixpoint unqual (dc dv : bool) (t : cty) : cty :=
   | Arr e n => Arr (unqual dc dv e) n
   | _ => t
   end.
+
+(** * numeric_limits: member names and member values (shared by model and spec) *)
+Inductive lmem :=
+| Lis_specialized | Lmin | Lmax | Llowest | Ldigits | Ldigits10 | Lmax_digits10
+| Lis_signed | Lis_integer | Lis_exact | Lradix | Lepsilon | Lround_error
+| Lmin_exponent | Lmin_exponent10 | Lmax_exponent | Lmax_exponent10
+| Lhas_infinity | Lhas_quiet_NaN | Lhas_signaling_NaN | Lhas_denorm | Lhas_denorm_loss
+| Linfinity | Lquiet_NaN | Lsignaling_NaN | Ldenorm_min
+| Lis_iec559 | Lis_bounded | Lis_modulo | Ltraps | Ltinyness_before | Lround_style.
+
+Definition all_lmem : list lmem :=
+  [Lis_specialized; Lmin; Lmax; Llowest; Ldigits; Ldigits10; Lmax_digits10; Lis_signed;
+   Lis_integer; Lis_exact; Lradix; Lepsilon; Lround_error; Lmin_exponent; Lmin_exponent10;
+   Lmax_exponent; Lmax_exponent10; Lhas_infinity; Lhas_quiet_NaN; Lhas_signaling_NaN; Lhas_denorm;
+   Lhas_denorm_loss; Linfinity; Lquiet_NaN; Lsignaling_NaN; Ldenorm_min; Lis_iec559; Lis_bounded;
+   Lis_modulo; Ltraps; Ltinyness_before; Lround_style].
+
+(* value of a member: bool, integer, the floating-point number m * 2^e (m odd or 0), +inf, NaN *)
+Inductive lval := LB (b : bool) | LI (z : Z) | LF (m e : Z) | LInf | LNaN.
+
+(* canonical m * 2^e with m odd (or 0 0); fuel = bit length of m *)
+Fixpoint norm_f (fuel : nat) (m e : Z) : lval :=
+  match fuel with
+  | O => LF m e
+  | S f => if m =? 0 then LF 0 0 else if Z.even m then norm_f f (m / 2) (e + 1) else LF m e
+  end.
+Definition mkf (m e : Z) : lval := norm_f 200 m e.
+
